@@ -70,7 +70,7 @@ func (g *gen) size(exactMax, bigMax int) int {
 		if bigMax <= exactMax {
 			return g.rng.Intn(exactMax + 1)
 		}
-		return []int{exactMax + 1 + g.rng.Intn(1000), 4096, 16384, bigMax - g.rng.Intn(3), bigMax}[g.rng.Intn(5)]
+		return g.bigN(bigMax) - g.rng.Intn(3)
 	}
 }
 
@@ -231,8 +231,25 @@ func (g *gen) xmlArr(d int) any {
 	return []any{g.xmlName(), attrs, kids}
 }
 
+// sizes beyond the exact zone: mostly a few KiB, sometimes 16 K, rarely the full 64 KiB
+func (g *gen) bigN(max int) int {
+	n := 300 + g.rng.Intn(1700)
+	switch r := g.rng.Intn(20); {
+	case r < 4:
+		n = 4096
+	case r < 6:
+		n = 16000
+	case r < 7:
+		n = 65536
+	}
+	if n > max {
+		n = max
+	}
+	return n
+}
+
 func (g *gen) bigString() string {
-	n := []int{2000, 16000, 65536}[g.rng.Intn(3)]
+	n := g.bigN(65536)
 	var sb strings.Builder
 	for sb.Len() < n {
 		if g.rng.Intn(4) == 0 {
@@ -247,7 +264,7 @@ func (g *gen) bigString() string {
 func (g *gen) serJob() M {
 	fs := []string{"json", "jq", "yaml", "toml", "csv", "xml", "xmla", "urlquery", "jsonl", "json_i", "jq_i"}
 	f := fs[g.rng.Intn(len(fs))]
-	big := g.rng.Intn(60) == 0
+	big := g.rng.Intn(100) == 0
 	var v any
 	switch f {
 	case "json", "jq", "json_i", "jq_i":
@@ -368,14 +385,14 @@ func (g *gen) job(i int) M {
 		r = 99
 	}
 	switch {
-	case r < 14: // binaries: exact up to 256 bytes
+	case r < 15: // binaries: exact up to 256 bytes
 		n := g.size(256, 256)*8 - g.rng.Intn(8)
 		if n < 0 || g.rng.Intn(3) == 0 {
 			n = g.size(256, 256) * 8
 		}
 		return M{"k": "bin", "x": 1, "bits": bitsOfBytes(g.bytes((n+7)/8), int64(n)), "h": g.rng.Intn(3) == 0}
 	case r < 16: // whole bytes at any size: laws only
-		return M{"k": "bytes", "x": 0, "inb": ints(g.bytes(g.size(300, 65536))), "h": true}
+		return M{"k": "bytes", "x": 0, "inb": ints(g.bytes(g.bigN(65536) - g.rng.Intn(3))), "h": true}
 	case r < 22:
 		s := hex.EncodeToString(g.bytes(g.size(64, 64)))
 		if g.rng.Intn(3) == 0 {
@@ -438,8 +455,8 @@ func (g *gen) job(i int) M {
 		return M{"k": "toradix", "x": x, "base": base, "bits": bitsOfBig(bi)}
 	case r < 58:
 		n, x := g.rng.Intn(50), 1
-		if g.rng.Intn(25) == 0 {
-			n, x = 300+g.rng.Intn(16000), 0
+		if g.rng.Intn(40) == 0 {
+			n, x = g.bigN(16000), 0
 		}
 		cps := g.cps(n)
 		if g.rng.Intn(3) == 0 { // ISO-8859-1 representable
@@ -484,8 +501,8 @@ func (g *gen) job(i int) M {
 		return M{"k": "dec", "enc": en, "inb": ints(b)}
 	case r < 74:
 		n, x := g.rng.Intn(40), 1
-		if g.rng.Intn(25) == 0 {
-			n, x = 300+g.rng.Intn(16000), 0
+		if g.rng.Intn(40) == 0 {
+			n, x = g.bigN(16000), 0
 		}
 		cps := g.cps(n)
 		for k := range cps {
